@@ -70,6 +70,7 @@ pub mod verif {
     pub use crate::navigate::{verif_nav_state, verif_take_nav_log};
     pub use crate::braille::verif_last_braille;
     pub use crate::canonicalize::verif_number_patterns;
+    pub use crate::speech::verif_take_join_log;
 }
 
 #[cfg(test)]
